@@ -188,3 +188,13 @@ Qed.
 Lemma ad_stale_differs :   (* the defect class is visible on a history of two runs with different T *)
   snd (ad_execute_stale (Some 1%Q) 2%Q [(1 # 2)%Q]) <> snd (ad_execute (Some 1%Q) 2%Q [(1 # 2)%Q]).
 Proof. vm_compute. discriminate. Qed.
+
+(* the last operation of execute is the normalisation, with or without callbacks, for every number of steps *)
+Theorem execute_ends_with_norm cb n : exists l, execute_trace cb n = l ++ [XNorm].
+Proof. unfold execute_trace. eexists (XCb :: _). reflexivity. Qed.
+Theorem execute_step_count cb n : length (filter (fun o => xop_eqb o XStep) (execute_trace cb n)) = n.
+Proof.
+  unfold execute_trace. cbn [filter xop_eqb]. rewrite filter_app, app_length. cbn [filter xop_eqb length].
+  rewrite Nat.add_0_r. induction n as [|n IH]; [reflexivity|].
+  cbn [repeat concat]. rewrite filter_app, app_length, IH. destruct cb; reflexivity.
+Qed.
